@@ -198,7 +198,7 @@ def check_C03(ctx, rt):
                 "distinct = distinct accepted spellings")
     pool = smiles_pool(ctx, rt)
     pool += [gens.random_tree_smiles(rt.rng, rt.rng.randint(2, 25)) for _ in range(rt.n(400, 10000))]
-    pool += gens.long_span_smiles(rt.rng)[:rt.n(12, 40)]
+    pool += gens.long_span_smiles(rt.rng)[:rt.n(12, 40)] + gens.ring_bond_span_smiles()
     judge = roundtrip_judge(ctx, "C03")
     try:
         tabs = [("relaxed", relaxed(sf)), ("default", sf.get_preset_constraints("default"))]
@@ -280,6 +280,7 @@ def check_C04(ctx, rt):
     pool += [s_ for s_ in dict.fromkeys(moved) if s_ not in set(pool)]
     pool += ["OC1CC[C@](F)(Cl)1", "OC1CC[C@@H](F)1", "C(C[C@H]12)(OC2)CC1", "[C@]12(F)CC(C2)1", "[C@](F)(Cl)(Br)1CCC1",
              "C[C@](F)1CC1", "[C@H](F)1CCC1"]
+    pool += gens.ring_bond_span_smiles()
     pool = [s_ for s_ in pool if s_]
     ctx.distribution["digits_after_branches"] = len(moved)
     judge = roundtrip_judge(ctx, "C04")
@@ -735,7 +736,7 @@ def check_C10(ctx, rt):
         expected.append(w)
     rt.corr("selfies-atom-reader", lines, expected)
     # chain
-    pool = smiles_pool(ctx, rt, n_data=rt.n(15, 300)) + gens.long_span_smiles(rt.rng)[:rt.n(15, 40)]
+    pool = smiles_pool(ctx, rt, n_data=rt.n(15, 300)) + gens.long_span_smiles(rt.rng)[:rt.n(15, 40)] + gens.ring_bond_span_smiles()
     pool += ["[Fe+10]C", "[Fe+2]", "[Fe++]", "[N+]C", "[N+1]C", "[CH]C", "[CH1]C", "[13CH3-]", "[OH-]", "[Cu+2].[O-]C"]
     try:
         for tname, tab in [("relaxed", relaxed(sf)), ("default", sf.get_preset_constraints("default"))]:
@@ -1424,11 +1425,19 @@ def long_charge_witness():
         sf.set_semantic_constraints("default")
 
 
+def deep_nesting_witness():
+    try:
+        sf.decoder("[C][Branch3][P][P][P]" * 2000)
+    except Exception as e:  # noqa
+        return isinstance(e, RecursionError) or isinstance(e.__cause__, RecursionError)
+    return False
+
+
 def eval_check(expr):
     global sf
     sf = sys.modules["selfies"]
     env = {"sf": sf, "raises": raises, "alias_witness": alias_witness, "long_charge_witness": long_charge_witness,
-           "matching_witness": matching_witness}
+           "matching_witness": matching_witness, "deep_nesting_witness": deep_nesting_witness}
     try:
         return bool(eval(expr, env))
     except BaseException as e:  # noqa
